@@ -164,15 +164,17 @@ class Built(typing.NamedTuple):
     gids: dict  # group (or foreign key) -> gid
 
 
-def build(spec: dict, log: typing.Optional[str] = None) -> Built:
-    """Wire the spec through the public graph API."""
+def build(spec: dict, log: typing.Optional[str] = None, opaque: bool = False) -> Built:
+    """Wire the spec through the public graph API.  ``opaque``: the actors get their name through a value all builders
+    render alike (equal builder reprs, different content)."""
     names = {}
     nodes: list = []
     for i, m in enumerate(spec['nodes']):
         g = m['group']
         if g == i:
             names[g] = f'n{g}'
-            nodes.append(flow.Worker(symbolic.builder(names[g], m['stateful'], max(1, m['szout']), log), m['szin'], m['szout']))
+            given = symbolic.Opaque(names[g]) if opaque else names[g]
+            nodes.append(flow.Worker(symbolic.builder(given, m['stateful'], max(1, m['szout']), log), m['szin'], m['szout']))
         else:
             nodes.append(nodes[g].fork())
     for src, outport, dst, inport in spec['edges']:
